@@ -47,72 +47,76 @@ def validity_repr(v) -> str:
     return repr(v)
 
 
-def writer_reader_rules(prog, res: Result):
-    """R11.1: validity kinds stored by update() == kinds computed by _date2validity, same component order."""
-    mc = prog.cls("MoneyConverter")
-    from ..anchors import date_to_validity_table
-    _tbl_name, d2v = date_to_validity_table(prog)
-    reader = {}
-    for k, v in zip(d2v.keys, d2v.values):
-        ks = src_of(k)
-        kind = {"type(None)": "NoneType", "int": "int", "tuple": "tuple", "date": "date"}.get(ks, ks)
-        if not isinstance(v, ast.Lambda) or len(v.args.args) != 1:
-            raise AnalysisError(f"_date2validity[{ks}] is not a one-argument lambda")
-        p = v.args.args[0].arg
-        body = v.body
-        if isinstance(body, ast.Constant) and body.value is None:
-            shape = "None"
-        elif isinstance(body, ast.Name) and body.id == p:
-            shape = "date"
-        elif isinstance(body, ast.Attribute) and isinstance(body.value, ast.Name) and body.value.id == p:
-            shape = body.attr
-        elif isinstance(body, ast.Tuple) and all(isinstance(e, ast.Attribute) and isinstance(e.value, ast.Name)
-                                                 and e.value.id == p for e in body.elts):
-            shape = "(" + ", ".join(e.attr for e in body.elts) + ")"
-        else:
-            shape = "?" + src_of(body)
-        reader[kind] = shape
-    want = {"NoneType": "None", "int": "year", "tuple": "(year, month)", "date": "date"}
-    for kind, shape in want.items():
-        res.ob("R11.1", "MoneyConverter._date2validity", f"reader kind {kind}", reader.get(kind) == shape,
-               f"reader computes {reader.get(kind)!r} for kind {kind}, period kinds are {want}",
-               sig=f"reader maps a date to the wrong period for kind {kind}")
-    res.ob("R11.1", "MoneyConverter._date2validity", "key set", set(reader) == set(want),
-           f"keys {sorted(reader)}", sig="reader kind table incomplete", nontrivial=False)
-    # writer: every normalisation of `validity` in update()
-    up = prog.method("MoneyConverter", "update")
-    vname = up.node.args.args[1].arg
-    writer_shapes = set()
-    for n in ast.walk(up.node):
-        if isinstance(n, ast.Assign) and any(isinstance(t, ast.Name) and t.id == vname for t in n.targets):
-            v = n.value
-            if isinstance(v, ast.Call) and src_of(v.func) == "date.fromisoformat":
-                writer_shapes.add("date")
-            elif isinstance(v, ast.Attribute) and v.attr in ("year",):
-                writer_shapes.add("year")
-            elif isinstance(v, ast.Tuple) and all(isinstance(e, ast.Attribute) for e in v.elts):
-                writer_shapes.add("(" + ", ".join(e.attr for e in v.elts) + ")")
-            elif isinstance(v, ast.Call) and src_of(v.func) == "date":
-                writer_shapes.add("date")
-            else:
-                writer_shapes.add("?" + src_of(v))
-    ok = writer_shapes <= set(want.values())
-    res.ob("R11.1", "MoneyConverter.update", "writer normal forms", ok and {"year", "(year, month)", "date"} <= writer_shapes,
-           f"update normalises validity to {sorted(writer_shapes)}; reader computes {sorted(reader.values())}",
-           sig="writer stores a period form the reader never computes")
-    # the kind check compares type(validity) of the normalised value with the stored kind
-    src = src_of(up.node)
-    res.ob("R11.1", "MoneyConverter.update", "kind recorded as type(validity)",
-           "type(validity)" in src and "_type_of_validity" in src, "", sig="kind of validity not recorded",
-           nontrivial=False)
+def period_form(v, given=None):
+    """Abstract form of a stored validity period: None / year / (year, month) / date / ?..."""
+    def comp(x, name):
+        if isinstance(x, Num) and x.kind in ("int", "bool"):
+            return "given"
+        if isinstance(x, OpaqueV) and x.tag.endswith("." + name) and "date" in getattr(getattr(x, "attr_of", None), "kinds", ()):
+            return x.tag[:-len(name) - 1]
+        return None
+    if isinstance(v, NoneV):
+        return "None"
+    if isinstance(v, TupleV):
+        if len(v.items) == 2:
+            y, m = comp(v.items[0], "year"), comp(v.items[1], "month")
+            if y is not None and y == m:
+                return "(year, month)"
+        return "?" + validity_repr(v)
+    if comp(v, "year") is not None:
+        return "year"
+    if isinstance(v, OpaqueV) and "date" in getattr(v, "kinds", ()):
+        return "date"
+    return "?" + validity_repr(v)
+
+
+def judge_writer_reader(vkind):
+    """R11.1: on every accepting path of update() the stored period has the form the reader computes for the
+    kind update() records (the reader's forms per kind are established by R11.4), and a given period is stored
+    unchanged."""
+    def judge(o):
+        st = o.state
+        if o.kind == "raise":
+            return None
+        conv, given = o.args[0], o.args[1]
+        tbl = conv.fields["_rate_dict"]
+        K = conv.fields["_type_of_validity"]
+        if not isinstance(K, TypeV) or K.name not in KINDS:
+            return ("kind of validity recorded by update is not one the reader dispatches on", repr(K))
+        for key, _val in tbl.items:
+            if not (isinstance(key, TupleV) and len(key.items) == 2):
+                return ("entry key is not (validity, currency)", repr(key))
+            p = key.items[0]
+            form = period_form(p)
+            if form != KINDS[K.name]:
+                return ("writer stores a period form the reader never computes",
+                        f"stored period {validity_repr(p)} (form {form}) under kind {K.name}; for that kind the reader "
+                        f"looks up {KINDS[K.name]}")
+            if vkind == "str":
+                n = [t.split("=")[1] for t in o.trace if t.startswith("len(split)")]
+                want = {"1": "year", "2": "(year, month)", "3": "date"}.get(n[0]) if n else None
+                if want is not None and form != want:
+                    return ("period spelling mapped to the wrong period form",
+                            f"a string of {n[0]} dash-separated part(s) is stored as {form}; contract {want}")
+            elif vkind != "tuple":      # a tuple may be re-derived from the date it was validated with
+                same = p is given or (isinstance(p, Num) and isinstance(given, Num) and st.norm(p.rf).equals(st.norm(given.rf))) \
+                    or (isinstance(p, NoneV) and isinstance(given, NoneV)) \
+                    or (isinstance(p, TupleV) and isinstance(given, TupleV) and len(p.items) == len(given.items)
+                        and all(a is b or (isinstance(a, Num) and isinstance(b, Num) and st.norm(a.rf).equals(st.norm(b.rf)))
+                                for a, b in zip(p.items, given.items)))
+                if not same:
+                    return ("given period not stored unchanged", f"given {validity_repr(given)}, stored {validity_repr(p)}")
+        return None
+    return judge
 
 
 def run(prog, tier) -> Result:
     res = Result("C11")
     res.explanation = (
-        "R11.1/2: the period forms update() stores ({None, year, (year, month), date}) equal what _date2validity "
-        "computes from a date, with the same component order, and the currency component of the key is the "
-        "Currency object the reader looks up. R11.3: get_rate is evaluated abstractly for all identity patterns of "
+        "R11.1/2: on every accepting path of update() - for None, int, tuple, date and each string spelling - the "
+        "stored period has the form ({None, year, (year, month), date}) the reader computes from a date for the "
+        "kind update() records (reader forms per kind: R11.4), a given period is stored unchanged, and the currency "
+        "component of the key is the Currency object the reader looks up. R11.3: get_rate is evaluated abstractly for all identity patterns of "
         "(base, unit, term): the returned rate's dimensioned value equals r(term)/r(unit) with r(base) = 1, in the "
         "requested direction, None when an entry is missing, and one for identical currencies. R11.4/6: _get_rate "
         "performs exactly one table lookup with the key computed from the effective date (default: the configured "
@@ -123,7 +127,6 @@ def run(prog, tier) -> Result:
     res.assumptions = ["NOT decided: correctness of period spellings beyond their shape"]
     cr = CaseRunner(prog, res, max_depth=8 if tier == "quick" else 12)
     MC = lambda n: prog.method("MoneyConverter", n)
-    writer_reader_rules(prog, res)
 
     # ---- R11.3 get_rate
     def setup_gr(vtype):
@@ -344,6 +347,11 @@ def run(prog, tier) -> Result:
                 cr.run("R11.5" if sc == "Currency" else "R11.2", up,
                        f"update validity {vk}, spec currency {sc}, {'first' if prior is None else 'later'} update",
                        setup_up(vk, sc, prior), judge_up(vk, sc))
+    # R11.1: writer / reader agreement on period forms, decided on the evaluated table entries
+    for vk in ("None", "int", "tuple", "str", "date"):
+        for prior in (None, {"None": "NoneType", "str": "int"}.get(vk, vk)):
+            cr.run("R11.1", up, f"writer/reader agreement, validity {vk}, {'first' if prior is None else 'later'} update",
+                   setup_up(vk, "Currency", prior), judge_writer_reader(vk), min_paths=2)
     # R11.9: a later update of the same (period, currency) replaces the earlier rate
     from ..engine_a import run_body
     from ..report import Violation
@@ -408,7 +416,7 @@ def run(prog, tier) -> Result:
     writes = inventory(prog, ["quantity.money"])
     cg = CallGraph(prog)
     n = len(check_ownership(res, "R11.8", writes, "_rate_dict",
-                            {"MoneyConverter.__init__": {"="}, "MoneyConverter.update": {"update", "[]=", "="}}, cg))
+                            {"MoneyConverter.__init__": {"="}, "MoneyConverter.update": {"*"}}, cg))
     n += len(check_ownership(res, "R11.8", writes, "_type_of_validity",
                              {"MoneyConverter.__init__": {"="}, "MoneyConverter.update": {"="}}, cg))
     if n < 4:
